@@ -51,6 +51,7 @@ structure Codec where
 inductive Err
   | contentEncoding | contentLength | transferEncoding | lineTooLong | badMessage | invalidHeader
   | connClosed      -- RuntimeError("Connection closed.") from StreamReader._wait
+  | connReset       -- ConnectionResetError("Connection lost") set by RequestHandler.connection_lost
   | assertion       -- an `assert` / internal RuntimeError of the real code would fire
   | stall           -- model only: the decoder claims data_available but makes no progress (fuel)
   | tooLarge        -- HTTPRequestEntityTooLarge
@@ -60,7 +61,7 @@ def Err.name : Err → String
   | .contentEncoding => "E_CONTENT_ENCODING" | .contentLength => "E_CONTENT_LENGTH"
   | .transferEncoding => "E_TRANSFER_ENCODING" | .lineTooLong => "E_LINE_TOO_LONG"
   | .badMessage => "E_BAD_MESSAGE" | .invalidHeader => "E_INVALID_HEADER"
-  | .connClosed => "E_CONN_CLOSED" | .assertion => "E_ASSERT" | .stall => "E_STALL"
+  | .connClosed => "E_CONN_CLOSED" | .connReset => "E_CONN_RESET" | .assertion => "E_ASSERT" | .stall => "E_STALL"
   | .tooLarge => "E_TOO_LARGE"
 
 inductive Framing | length | chunked | untilEof
@@ -140,6 +141,8 @@ structure World (c : Codec) where
   waiter : Bool := false         -- StreamReader._waiter is not None
   wakeExc : Option Err := none   -- the parked waiter was failed by set_exception
   reqBody : Bytes := []
+  lineAcc : Bytes := []          -- bytes a parked `readuntil()` has collected so far (its local `chunk`)
+  lineMax : Nat := 0             -- its `max_size` (`max_size or self._high_water`, fixed at entry)
 
 variable {c : Codec}
 
@@ -551,6 +554,107 @@ def reqRead (w : World c) (cms : Nat) : World c × Out :=
         ({ w with reqParked := false }, .err (w.exc.getD .assertion))
       else reqLoop cms 1099511627776 w
 
+/-! ## a consumer coroutine that stays parked: `read(n)` / `readany()` / `readline()`
+
+Unlike `readOp` (one attempt; a blocked coroutine is thrown away and re-issued), these keep the
+coroutine parked in `StreamReader._wait()` and resume it when its waiter is done — the only way
+to see what a reader does right after a wake-up (chunk end without data, exception set while
+parked, partial line collected so far). -/
+
+/-- what a parked coroutine finds when it is resumed: still waiting / its waiter was failed /
+(repaired `_wait`) an exception recorded since.  `none` = go on. -/
+def resumeGate (w : World c) : Option (World c × Out) :=
+  if w.reqParked && w.waiter then some (w, .blocked)
+  else
+    match (if w.reqParked then w.wakeExc else none) with
+    | some e => some ({ w with reqParked := false, wakeExc := none, lineAcc := [] }, .err e)
+    | none =>
+      if w.reqParked && w.waitRechecks && w.exc.isSome then
+        some ({ w with reqParked := false, lineAcc := [] }, .err (w.exc.getD .assertion))
+      else if !w.reqParked && w.exc.isSome then some (w, .err (w.exc.getD .assertion))   -- entry check of a new call
+      else none
+
+/-- `await self._wait()`: RuntimeError when the connection is gone, else park on a new waiter -/
+def parkOrFail (w : World c) : World c × Out :=
+  if w.connected then ({ w with reqParked := true, waiter := true, wakeExc := none }, .blocked)
+  else ({ w with reqParked := false, lineAcc := [] }, .err .connClosed)
+
+/-- `await payload.read(n)` (`some n`, n > 0) / `await payload.readany()` (`none`), coroutine kept:
+`while not self._buffer and not self._eof: await self._wait()` then `_read_nowait` -/
+def parkedRead (w : World c) (n : Option Nat) : World c × Out :=
+  match resumeGate w with
+  | some r => r
+  | none =>
+    let w := match n with | some k => setChunk w k | none => w
+    if w.buf.isEmpty && !w.eof then parkOrFail w else
+    let w := { w with reqParked := false, outb := [] }
+    let w :=
+      match n with
+      | some k => readUpTo k k w
+      | none => readAllChunks w.buf.length w
+    (w, .data w.outb)
+
+inductive LineRes | found | more | tooLong
+deriving DecidableEq, Repr
+
+/-- is the separator in the first buffer? (`self._buffer[0].find(separator, offset) + 1`) -/
+def lineFound (w : World c) : Bool :=
+  match w.buf with
+  | first :: _ => (findByte 10 first).isSome
+  | [] => false
+
+/-- one turn of the inner loop: take from the first buffer up to and including the separator (or
+all of it) and add it to the line -/
+def lineTake (w : World c) : World c :=
+  let n := match w.buf with
+    | first :: _ => (findByte 10 first).map (· + 1)
+    | [] => none
+  let w := readChunk { w with outb := [] } n
+  { w with lineAcc := w.lineAcc ++ w.outb }
+
+/-- `while self._buffer and not_enough:` of `readuntil(b"\\n")`: take a buffer, then raise
+`LineTooLong` as soon as the line is longer than `max_size` — checked after EVERY buffer taken,
+which is what bounds the memory of one `readline()` when taking a buffer refills the reader
+re-entrantly. -/
+def lineInner : Nat → Nat → World c → World c × LineRes
+  | 0, _, w => (w, .more)
+  | fuel + 1, maxSize, w =>
+    if w.buf.isEmpty then (w, .more) else
+    let found := lineFound w
+    let w := lineTake w
+    if w.lineAcc.length > maxSize then (w, .tooLong)
+    else if found then (w, .found)
+    else lineInner fuel maxSize w
+
+/-- entry of `readuntil`: `chunk = b""`, `max_size = max_size or self._high_water` (a resumed
+coroutine keeps what it had) -/
+def lineStart (w : World c) : World c :=
+  if w.reqParked then w else { w with lineMax := w.high, lineAcc := [] }
+
+/-- what `readuntil` does once the inner loop stops: raise, return the line, return what is left
+at EOF, or wait for more -/
+def lineFinish (r : World c × LineRes) : World c × Out :=
+  let w := r.1
+  match r.2 with
+  | .tooLong => ({ w with reqParked := false, lineAcc := [] }, .err .lineTooLong)
+  | .found => ({ w with reqParked := false, lineAcc := [] }, .data w.lineAcc)
+  | .more =>
+    if w.eof then ({ w with reqParked := false, lineAcc := [] }, .data w.lineAcc)
+    else parkOrFail w
+
+/-- `await payload.readline()` (= `readuntil(b"\\n")`), coroutine kept -/
+def parkedLine (w : World c) : World c × Out :=
+  match resumeGate w with
+  | some r => r
+  | none =>
+    let w := lineStart w
+    lineFinish (lineInner (w.lineMax + 2) w.lineMax w)
+
+/-- `RequestHandler.connection_lost(exc)` (server side): no `feed_eof`; the payload of the
+request being handled gets `exc`, or `ConnectionResetError("Connection lost")` for a clean close -/
+def connectionLostServer (w : World c) : World c :=
+  { setExc w .connReset with parserLive := false, connected := false }
+
 inductive Op
   | deliver (seg : Bytes)
   | close
@@ -558,6 +662,10 @@ inductive Op
   | readAny
   | setChunk (n : Nat)
   | reqRead (cms : Nat)
+  | pread (n : Nat)
+  | preadAny
+  | preadLine
+  | closeServer
 deriving Repr
 
 def step (w : World c) : Op → World c × Out
@@ -572,6 +680,10 @@ def step (w : World c) : Op → World c × Out
     | none => if n == 0 then (w, .data []) else readOp w (some n)
   | .readAny => readOp w none
   | .reqRead cms => reqRead w cms
+  | .pread n => parkedRead w (some n)
+  | .preadAny => parkedRead w none
+  | .preadLine => parkedLine w
+  | .closeServer => if !w.connected then (w, .skipped) else (connectionLostServer w, .none)
 
 def run (w : World c) (ops : List Op) : World c := ops.foldl (fun w op => (step w op).1) w
 
